@@ -3,13 +3,62 @@ SPEC = {
     'harness': 'hC34',
     'coq_dir': 'C34',
     'claimed': False,
-    'theorems': [],
+    'theorems': ['C34_rebuild_exact_refuted', 'C34_rebuild_exact', 'C34_rebuild_exact_up_to_main',
+                 'C34_index_after_arrivals', 'C34_rebuild_guard_example', 'C34_arrival',
+                 'C34_missing_waits_then_requests', 'C34_single_block_life', 'C34_life_example',
+                 'C34_never_posts_partial'],
     'allowed_axioms': [],
     'shard': 40,
     'check_preamble': 'From C33 Require Import C33.Model C34.Model.\nOpen Scope Z_scope.\n',
-    'rule': 'tbd',
-    'trusted_base': [],
-    'assumptions': [],
-    'manifest': {'level_text': 'tbd', 'level_note': 'tbd', 'technique': 'Coq proof + in-kernel correspondence check'},
+    'rule': 'histories of 2-16 events (4-30 thorough) on two real components: a SENDER (handleBroadcastSend: light or full '
+            'form depending on MinLtBlockSize / DisableLtBlock / send filter) and a RECEIVER (handleBroadcastReceive, '
+            'addLtBlock, buildPendBlock, buildPendList; pending loop one iteration at a time through the hook) whose mempool '
+            'is the real system/mempool bookkeeping with its short-hash index. Per case 3-8 units (single transactions and '
+            'groups of 2-4 built by types.CreateTxGroup), 1-3 blocks = miner transaction + up to 5 units in random order '
+            '(groups at every position), heights 1-6, sizes around the light-block threshold. Events: a unit arrives in the '
+            'mempool (most units of the blocks arrive at some point, before or after the block, before or after the '
+            'timeout), a unit is removed, a block is sent (wire round trip protobuf encode/decode, then delivered), loop '
+            'iteration with a virtual clock (types.SetTimeDelta, timeouts 1-4 s), node height change. Streams: "guarded" (short '
+            'hash injective on the case, no MainHash: every spec failure is a violation), "para" (blocks with '
+            'MainHash/MainHeight: finding 1), "collide" (contains a real 40-bit short-hash collision found by a birthday '
+            'search over 3e6 payloads; one of the pair is in a block, the other in the pool: finding 2). After every event: '
+            'what the sender published (kind, header fields, miner tx, short hashes), blocks handed to the blockchain '
+            'module (publisher, height, header fields, MainHash, transaction id per slot), peer messages (kind, peer, '
+            'height), pending-list length, mempool accept flag, survived?. non-trivial = something was posted, published '
+            'or pending; distinct = distinct Gallina case terms',
+    'trusted_base': [
+        'transactions are identities; hs (identity of Transaction.Hash(), equal for a group-carrying transaction and its '
+        'first member) and sh (5-byte short hash of a hash) are function arguments of the model, the theorems quantify over '
+        'them; in the correspondence check they are the tables of real Hash()/CalcTxShortHash values computed by the harness',
+        'the receiving side is the model of C33 (addLtBlock/buildPendBlock/buildPendList/pendBlockLoop with Go panic '
+        'semantics); its trusted base applies',
+        'mempool: only push (duplicate hash refused, short-hash entry skipped when the short hash is taken or the cache is '
+        'full) and remove-by-hash (index entry deleted by short hash) are modelled; queue/account limits are not reached '
+        '(C21 covers the full bookkeeping)',
+        'the specification oracle C34.Spec (sets of available pool-level transactions, greedy left-to-right cover of the '
+        'block by units) is the reading of the property text; it never looks at short hashes or slots',
+        'hook files /repo/system/p2p/dht/protocol/broadcast/lt_verif.go and /repo/system/mempool/access_verif.go '
+        '(build tag verif); pendBlockLoop body repeated in TickPendVerif (C33 runs the real loop)',
+        'the 200 ms ticker, libp2p pubsub and snappy are abstracted to events / a protobuf round trip',
+    ],
+    'assumptions': [
+        'C34_rebuild_exact: guard ob_main = 0 (no MainHash/MainHeight) - without it refuted (finding 1); hypothesis all_found '
+        '(each unit is found under the short hash of its first transaction), which C34_index_after_arrivals derives from '
+        'pairwise different short hashes of the pooled transactions; nothing is assumed about look-ups of the other members',
+        'C34_arrival / C34_missing_waits_then_requests / C34_single_block_life: hypothesis honest1 for units not yet filled '
+        '(under the head short hash the pool answers with the unit itself or nothing; if nothing, also nothing under the other '
+        'members short hashes) - what an injective short hash and a mempool that never holds group members individually give',
+        'TxCount within memory (<= c_cap, <= 2^45)',
+    ],
+    'manifest': {
+        'level_text': 'partial: exact rebuild proved up to MainHash/MainHeight (full statement refuted, finding 1) and under '
+                      'the short-hash injectivity guard (finding 2 without it); waiting/timeout/request behaviour proved for '
+                      'any number of pending blocks of honest senders; never-partial proved without assumptions; ticker and '
+                      'pubsub abstracted',
+        'level_note': 'model = C33 model + Gallina transcription of handleBroadcastSend/buildLtBlock and of the short-hash index; '
+                      'independent set-based specification as oracle; real sender, receiver and mempool in the harness',
+        'technique': 'Coq proof (unit-level refinement of buildPendBlock, induction over units and pending lists) + in-kernel '
+                     'correspondence check',
+    },
     'harness_timeout': {'quick': 400, 'thorough': 3000},
 }
